@@ -13,8 +13,13 @@ def full_flag_unit():
                 "per recursion level (3 levels, any cell sizes in [0,0.85], any radius in (0,pi]): the test `shs <= min` cannot succeed for ANY shs >= 0 (0 included) when the radius is below the cell size", timeout=600, level="P", extra=dict(no_native=True))
 def threshold_unit():
     return Unit("cone_thresholds_contract", P + "cone_thresholds_contract", ["to_shs_min_max_array", "to_shs_min_max", "to_squared_half_segment", "(assumed monotone) f64::sin"],
-                "for 0 < r <= pi, 0 <= d <= 0.85 and every distance a in [0,pi]: a <= r+d => shs(a) <= max; a <= r-d => shs(a) <= min; min <= max; r < d => min == 0 (sin replaced by a memoised monotone function); time-bounded refutation search (two double products: proof does not finish)",
+                "for 0 < r <= pi, 0 <= d <= 0.85 and every distance a in [0,pi]: a <= r+d => shs(a) <= max; a <= r-d => shs(a) <= min; min <= max; r < d => min == 0 (sin replaced by a memoised function increasing on [0,pi/2], arbitrary beyond); time-bounded refutation search (two double products: proof does not finish)",
                 kind="search", timeout=240, extra=dict(no_native=True))
+
+def threshold_struct_unit():
+    return Unit("cone_thresholds_struct", P + "cone_thresholds_struct", ["to_shs_min_max_array", "to_shs_min_max", "(contract stub: even, increasing on [0,pi], arbitrary beyond) to_squared_half_segment"],
+                "for 0 < r <= pi, 0 <= d <= 0.85 and every distance a in [0,pi]: a <= r+d => shs(a) <= max (also when r+d > pi: the argument must be clamped); a <= r-d => shs(a) <= min; r >= d => min <= max -- against the monotonicity contract of to_squared_half_segment, product-free",
+                timeout=600, level="P", extra=dict(no_native=True))
 
 def allsky_units():
     return [Unit("cone_allsky_d%02d" % d, P + "cone_allsky_d%02d" % d, ["Layer::cone_coverage_approx_internal", "Layer::allsky_bmoc_builder", "(contract stub) BMOCBuilderUnsafe::{new,push_all}"],
